@@ -4,7 +4,7 @@ CONSTANTS
   Srcs = {"ready_val", "after_val", "run_val", "sched_val", "task_val", "lcontract_val"}
   Atts = {"inline", "e1", "inh"}
   Args = {"V", "R", "X"}
-  Behs = {"val", "throw", "res_val", "fut_ready", "fut_pending", "shared_ready", "shared_pending", "task_make", "task_sched", "task_contract", "task_sched_then"}
+  Behs = {"val", "throw", "res_val", "fut_ready", "fut_pending", "shared_ready", "task_make", "task_sched_then"}
   Rejects = {9}
   Starts = {"to_future", "detach"}
 INVARIANTS CalledXorDropped DropOnlyWhenStopped RanWhereTold InvokedInOrder LazyEqualsEager CancelRunsNoValueCallback AllocBound Emit
